@@ -101,24 +101,19 @@ def gen(rng, tier):
     while len(order) < n:
         order.append(rng.choice(keys))
     for key in order[:max(n, 2 * len(mo.EXACT_KEYS))]:
-        xs = _gen_inputs(mo, key, rng)
-        assert mo.in_domain(key, xs), (key, xs)
-        cases.append({'m': key, 'args': [[x.numerator, x.denominator] for x in xs]})
+        cases.append(mo.gen_case(key, rng))
     return cases
-
-
-def _gen_inputs(mo, key, rng):
-    # arities are those of the translator's table, no need for the real module
-    return mo.gen_inputs(key, rng)
 
 
 def run(case):
     mo = _oracle()
-    xs = [Fraction(a, bb) for a, bb in case['args']]
-    return mo.observe(case['m'], xs)
+    xs = [mo.dec(p) for p in case['args']]
+    return mo.observe(case['m'], xs, bool(case.get('shim')))
 
 
 def _q(p):
+    if p[0] in ('a', 'd'):              # angle tokens (Math/QInst.v)
+        return '(%s %s %d)' % ('ang' if p[0] == 'a' else 'deg', core.z(int(p[1])), int(p[2]))
     n, d = int(p[0]), int(p[1])
     return '(q %s %d)' % (core.z(n), d)
 
@@ -134,13 +129,13 @@ def encode(case, trace):
 
 
 def nontrivial(case, trace):
-    vals = {(a, d) for a, d in case['args'] if a != 0}
+    vals = {tuple(p) for p in case['args'] if p[-2] != 0}
     outs = trace.get('out') or []
-    return len(vals) >= 2 and any(a != 0 for a, _ in outs)
+    return len(vals) >= 2 and any(p[-2] != 0 for p in outs)
 
 
 def key(case, trace):
-    return json.dumps([case['m'], case['args']])
+    return json.dumps([case['m'], case['args'], bool(case.get('shim'))])
 
 
 def stats(cases, traces):
@@ -153,25 +148,30 @@ def stats(cases, traces):
         if c['m'] == 'Mat4.__invert__' and t.get('warn'):
             sing += 1
         if c['m'] in ('Vec2.limit', 'Vec3.limit'):
-            xs = [Fraction(a, d) for a, d in c['args']]
+            xs = [Fraction(p[0], p[1]) for p in c['args']]
             s, m = sum(x * x for x in xs[:-1]), xs[-1]
             lim['short' if s < m * m else ('boundary' if s == m * m else 'long')] += 1
-    return dict(methods=len(per), cases_per_method_min=min(per.values()),
+    shim = sum(1 for c in cases if c.get('shim'))
+    return dict(methods=len(per), runs_with_scripted_math=shim,
+                cases_per_method_min=min(per.values()),
                 cases_per_method_max=max(per.values()), singular_inverse_cases=sing,
                 limit_cases=lim, raised=exc, per_method=per)
 
 
 def _in_domain(case):
-    return _oracle().in_domain(case['m'], [Fraction(a, d) for a, d in case['args']])
+    mo = _oracle()
+    return mo.in_domain(case['m'], [mo.dec(p) for p in case['args']], bool(case.get('shim')))
 
 
 def shrink(case):
     """simpler entries, staying inside the domain on which the real code
     computes exactly (otherwise rounding, not the code, would be reported)"""
     args = case['args']
-    for i, (n, d) in enumerate(args):
+    for i, p in enumerate(args):
+        tag, (n, d) = p[:-2], p[-2:]
         for cand in ([0, 1], [1, 1], [-1, 1], [n // d if d else 0, 1], [n, 1]):
-            if cand != [n, d]:
+            cand = tag + cand
+            if cand != p:
                 c = dict(case)
                 c['args'] = args[:i] + [cand] + args[i + 1:]
                 if _in_domain(c):
@@ -185,7 +185,8 @@ def mutate(case, rng):
     for _ in range(200):
         i = rng.randrange(len(args))
         c = dict(case)
-        c['args'] = args[:i] + [[rng.randint(-9, 9), rng.choice((1, 2, 4))]] + args[i + 1:]
+        c['args'] = args[:i] + [args[i][:-2] + [rng.randint(-9, 9), rng.choice((1, 2, 4))]] \
+            + args[i + 1:]
         if _in_domain(c):
             yield c
 
